@@ -35,15 +35,16 @@
 (*    completion of the with statement                                      *)
 (*                                                                          *)
 (* Two phases, selected by the .cfg (INIT/NEXT):                            *)
-(*  gen: TLC states are PROGRAMS; programs grow by appending one statement  *)
-(*       to any block (AddXxx actions); every program with an observing     *)
-(*       statement is published.                                            *)
+(*  gen: TLC states are PROGRAMS; programs grow from the start program Pre *)
+(*       by appending one statement to any block (AddXxx actions); every    *)
+(*       closed program with an observing statement is published.           *)
 (*  run: Init picks a numbered program (with the definedness facts exported *)
 (*       from its real compilation: fx = cf_maybe_null / cf_is_null of the  *)
 (*       NameNode, per finally-copy context) from IOEnv.PROGS; Next is the  *)
 (*       small-step machine; terminal states publish word, expected log,    *)
-(*       outcome, and the fact verdicts  unbound-at-use => cf_maybe_null,   *)
-(*       cf_is_null => unbound-at-use.                                      *)
+(*       outcome, and the fact verdicts  unbound at a use or rebinding =>   *)
+(*       cf_maybe_null,  cf_is_null => unbound there.  Terminal states      *)
+(*       stutter; TLC's deadlock check then says that no state is stuck.    *)
 EXTENDS Integers, Sequences, FiniteSets, TLC, Json, IOUtils
 
 CONSTANTS NV,        \* variables 1..NV
